@@ -104,7 +104,8 @@ def instrument(insp, name, faults, hist, src):
             lst.append(None)
             hist.state[name].append(None)
         piece = lst[i] is not None
-        lst[i] = chunk if not piece else bytes(lst[i]) + bytes(chunk)
+        # (copies: the producer may reuse its buffer for the next chunk)
+        lst[i] = bytes(chunk) if not piece else lst[i] + bytes(chunk)
         if piece:
             hist.pieces += 1
         if name in hist.raised:
@@ -274,7 +275,7 @@ def _run_session(data, case, faults, src_fault):
                     src.current_req = None
                     chunk = w.read(-1 if case['final_read'] == 'minus1'
                                    else None)
-                    hist.got.append(chunk)
+                    hist.got.append(bytes(chunk))
                     op += 1
                     continue
                 if op < len(plan) and req > plan[op]:
@@ -284,7 +285,7 @@ def _run_session(data, case, faults, src_fault):
                 if len(chunk) > req:
                     hist.oversized.append((op, req, len(chunk)))
                 if not chunk and req > 0:
-                    hist.got.append(chunk)
+                    hist.got.append(bytes(chunk))
                     hist.ended = 'eof'
                     break
             elif case.get('forloop'):
@@ -317,7 +318,7 @@ def _run_session(data, case, faults, src_fault):
         except Exception as e:
             hist.surfaced = (op, e)
             break
-        hist.got.append(chunk)
+        hist.got.append(bytes(chunk))
         op += 1
     if hist.surfaced is not None and case.get('drain') and \
             src.raised is None:
@@ -646,8 +647,7 @@ class C06(Check):
                 'next_after_stop': pers == 'iter' and crng.random() < 0.3,
                 'mixed_calls': [crng.random() < 0.4 for _ in range(7)]
                 if pers == 'iter' and crng.random() < 0.15 else None,
-                'chunk_kind': core.weighted(crng, [(None, 6), ('bytearray', 1),
-                                                   ('memoryview', 1)]),
+                'chunk_kind': core.weighted(crng, imgsim.CHUNK_KINDS),
                 'no_close': crng.random() < 0.1,
                 'close_fails': crng.random() < 0.1,
                 'final_read': core.weighted(crng, [(None, 8), ('minus1', 1),
